@@ -45,7 +45,7 @@ UniformIds == {TraceLog[i].obs[TraceLog[i].m].fdig[1] :
                  i \in {j \in 1..N : TraceLog[j].ev = "Create" /\ TraceLog[j].uniform}}
 TraceFloorless(f) == f \in UniformIds
 
-Par == [M |-> Ev.par.M, chi |-> Ev.par.chi, asm |-> Ev.par.asm, phiOl |-> Ev.par.phiOl]
+Par == [M |-> Ev.par.M, chi |-> Ev.par.chi, asm |-> Ev.par.asm, phiOl |-> Ev.par.phiOl, x |-> Ev.par.x]
 
 \* post-state agreement for the minerals the call touched ------------------------------
 Agree(m) == /\ hist'[m] = ObsHist(Obs(m))
